@@ -54,8 +54,12 @@ func (w *world) scenarioLyingOracle() {
 	if kind == "c" && w.rng.Intn(3) == 0 {
 		lie = 3 // the field boundary between call data and value moves, their concatenation stays
 	}
-	hl := h0 + 8*lie
-	w.out.Count(fmt.Sprintf("scenario:lying-oracle:%s:lie=%d", kind, lie))
+	hl := w.normH(n, h0+8*lie, w.spec(n, h0, kind))
+	if lieOf(hl) == 0 {
+		w.out.Count("scenario:lying-oracle:no-lie-for-this-claim-type")
+		return
+	}
+	w.out.Count(fmt.Sprintf("scenario:lying-oracle:%s:lie=%d", w.spec(n, h0, kind).kind[:1], lieOf(hl)))
 	if sum.Add(w.power(liar.o)).Equal(req) {
 		w.out.Count("scenario:lying-oracle:liar-reaches-exactly-the-bar")
 	}
@@ -74,7 +78,7 @@ func (w *world) scenarioLyingOracle() {
 	if w.k.GetLastObservedEventNonce(w.s.Ctx) == lo {
 		w.out.Count("scenario:lying-oracle:not-observed(as it must)")
 	} else {
-		w.out.Count("scenario:lying-oracle:OBSERVED-with-the-liar's-vote")
+		w.out.Count("scenario:lying-oracle:observed(votes cast earlier for the base claim completed the quorum, or a violation)")
 	}
 	// the others finish the event (or not)
 	if w.rng.Intn(2) == 0 {
